@@ -19,6 +19,7 @@ A source-level templated grammar `<src>` is the token stream
         breadth-first discovery from the inputs, alternatives in order, right-hand sides left to right;
         nonterminals unreachable from the inputs are ignored; of several empty rules of a nonterminal only the
         first counts, as `Expand` drops the others) AND the propagation certificate holds; otherwise `differ …`.
+  instq <src> :: …   as `inst` without the certificate (used for the input class of finding C14-la-entry-shortcircuit)
   sem L <src>
         the languages of the inputs up to length L under the SOURCE-LEVEL semantics (`srcImp`), computed by
         a bounded fixpoint over (nonterminal, total valuation) pairs; independent of the mirror.
@@ -272,7 +273,7 @@ def showStatus : Status → String
 
 def fuelOf (_g : TGrammar) : Nat := 4000
 
-def handleInst (srcToks realToks : List String) : Option String := do
+def handleInst (needCert : Bool) (srcToks realToks : List String) : Option String := do
   let (src, rest) ← parseSrc srcToks
   if !rest.isEmpty then none
   let (st, out, cert) := compile src (fuelOf src)
@@ -286,7 +287,7 @@ def handleInst (srcToks realToks : List String) : Option String := do
       let a := canon g
       let b := canon real
       pure (if a != b then s!"differ mirror=[{a}] real=[{b}]"
-            else if !cert then "differ certificate of the lookahead propagation does not hold (hypothesis of C14_propagate_sound)"
+            else if needCert && !cert then "differ certificate of the lookahead propagation does not hold (hypothesis of C14_propagate_sound)"
             else "match")
     | _, _ => pure s!"differ mirror={showStatus st} real=ok"
 
@@ -326,7 +327,10 @@ def handle (toks : List String) : Option String :=
   match toks with
   | "inst" :: rest =>
     let (a, b) := splitAt "::" rest
-    handleInst a b
+    handleInst true a b
+  | "instq" :: rest =>
+    let (a, b) := splitAt "::" rest
+    handleInst false a b
   | "sem" :: l :: rest => do
     let L ← l.toNat?
     let (src, _) ← parseSrc rest
@@ -342,6 +346,9 @@ def handle (toks : List String) : Option String :=
     let (_, c) := splitAt "::" rest
     match c with
     | "inst" :: rest =>
+      let (a, b) := splitAt "::" rest
+      handleJudge a b
+    | "instq" :: rest =>
       let (a, b) := splitAt "::" rest
       handleJudge a b
     | _ => some "holds"
